@@ -60,10 +60,63 @@ def _int_key_predicates(fn: ast.AST) -> list:
                         and unparse(b.value.func) == "int" and len(b.value.args) == 1 and unparse(b.value.args[0]) == b.targets[0].id:
                     var = b.targets[0].id
                     out.append((re.sub(r"\b{}\b".format(re.escape(var)), "K", unparse(n.test)), n.test))
+    if out or _CTX is None:
+        return out
+    # the decision delegated to a helper:  x = H(K);  if x is not None: K = x   -- the predicate is H's own decision
+    stmts = [n for n in ast.walk(fn) if isinstance(n, ast.If)]
+    for n in stmts:
+        t = n.test
+        if isinstance(t, ast.Compare) and len(t.ops) == 1 and isinstance(t.ops[0], ast.IsNot) and isinstance(t.left, ast.Name) \
+                and isinstance(t.comparators[0], ast.Constant) and t.comparators[0].value is None:
+            x = t.left.id
+            takes = [b for b in n.body if isinstance(b, ast.Assign) and isinstance(b.value, ast.Name) and b.value.id == x]
+            defs = [a for a in ast.walk(fn) if isinstance(a, ast.Assign) and len(a.targets) == 1 and isinstance(a.targets[0], ast.Name)
+                    and a.targets[0].id == x and isinstance(a.value, ast.Call) and isinstance(a.value.func, ast.Name) and len(a.value.args) == 1]
+            if takes and defs:
+                h = defs[-1].value.func.id
+                pred = _helper_predicate(h)
+                if pred is not None:
+                    out.append((pred, t))
     return out
 
 
+_CTX = None
+
+
+def _helper_predicate(name: str):
+    """the condition under which a module-level helper `H(name)` returns an integer, written over K:
+    `if P(name): return int(name)` -> P;  `try: i = int(name) except ValueError: return None; return i if C(i) else None`
+    -> "int(K) accepted and C(int(K))" (int() accepts signs, blanks and digit-group underscores -- not what isdecimal() accepts)"""
+    for mod in ("core", "luaexec", "parser", "common"):
+        m = _CTX.index.mod(mod)
+        if name in m.funcs:
+            f = m.funcs[name]
+            break
+    else:
+        return None
+    param = f.args.args[0].arg if f.args.args else None
+    if param is None:
+        return None
+    body = [x for x in f.body if not (isinstance(x, ast.Expr) and isinstance(x.value, ast.Constant))]
+    comps = []
+    ivar = None
+    for st in body:
+        if isinstance(st, ast.Try) and len(st.body) == 1 and isinstance(st.body[0], ast.Assign) and unparse(st.body[0].value) == "int({})".format(param):
+            ivar = unparse(st.body[0].targets[0])
+            comps.append("int(K) accepted")
+        elif isinstance(st, ast.If) and any(isinstance(r, ast.Return) and r.value is not None and "int(" in unparse(r.value) for r in st.body):
+            comps.append(re.sub(r"\b{}\b".format(re.escape(param)), "K", unparse(st.test)))
+        elif isinstance(st, ast.Return) and isinstance(st.value, ast.IfExp):
+            c = unparse(st.value.test)
+            if ivar:
+                c = re.sub(r"\b{}\b".format(re.escape(ivar)), "int(K)", c)
+            comps.append(re.sub(r"\b{}\b".format(re.escape(param)), "K", c))
+    return " and ".join(comps) if comps else None
+
+
 def rule_r1(ctx) -> RuleResult:
+    global _CTX
+    _CTX = ctx
     rr = RuleResult("C14.R1", "the three implementations use the same integer-key predicate", min_instances=3)
     sites = {
         "parser.TemplateNode.template_parameters": (ctx.fn("parser.TemplateNode.template_parameters"), PARSER),
